@@ -787,7 +787,15 @@ fn expiry_coq(v: &Value) -> String {
 
 fn coll_obs(w: &mut World, kind: CollKind) -> String {
     let c = w.target.clone();
-    let own = query_json(&w.app, &c, &json!({"ownership": {}})).unwrap_or(Value::Null);
+    // sg721-updatable has no Ownership query (and no UpdateOwnership message): its Minter
+    // query answers the cw-ownable owner
+    let own = match query_json(&w.app, &c, &json!({"ownership": {}})) {
+        Ok(v) => v,
+        Err(_) => {
+            let m = query_json(&w.app, &c, &json!({"minter": {}})).unwrap_or(Value::Null);
+            json!({"owner": m.get("minter").cloned().unwrap_or(Value::Null), "pending_owner": null, "pending_expiry": null})
+        }
+    };
     let oa = |w: &mut World, k: &str| own.get(k).and_then(|a| a.as_str()).map(|a| w.ids.id(a));
     let owner = oa(w, "owner");
     let pending = oa(w, "pending_owner");
